@@ -146,7 +146,7 @@ func run(c *engine.Ctx) {
 func work(c *engine.Ctx) {
 	env.SetNow(env.T0)
 
-	dir, err := os.MkdirTemp(filepath.Join(engine.VerifRoot, ".work"), "c19-")
+	dir, err := scratchDir("c19-")
 	if err != nil {
 		c.Infra("%v", err)
 
@@ -194,6 +194,19 @@ func work(c *engine.Ctx) {
 			fmt.Fprintf(os.Stderr, "c19: shard %d unit %s took %s\n", c.Shard, u.id, d)
 		}
 	}
+}
+
+const envTmp = "VERIF_C19_TMPDIR"
+
+// scratchDir creates a scratch directory. Processes started by this check create theirs inside the
+// directory of the process that started them, which removes it even when they die.
+func scratchDir(prefix string) (string, error) {
+	root := os.Getenv(envTmp)
+	if root == "" {
+		root = filepath.Join(engine.VerifRoot, ".work")
+	}
+
+	return os.MkdirTemp(root, prefix)
 }
 
 // monoNow reads the real monotonic clock (time.Now is virtual in this process).
@@ -318,7 +331,7 @@ func supervise(c *engine.Ctx) {
 		ctx, cancel := context.WithTimeout(context.Background(), budget+90*time.Second)
 		cmd := exec.CommandContext(ctx, os.Args[0], "C19", "--tier", c.Tier, "--shard", fmt.Sprint(c.Shard),
 			"--nshards", fmt.Sprint(c.NShards), "--partial", pf)
-		cmd.Env = append(os.Environ(), envChild+"=1", envProgress+"="+prog, envSkip+"="+strings.Join(skips, "\x1f"))
+		cmd.Env = append(os.Environ(), envChild+"=1", envProgress+"="+prog, envSkip+"="+strings.Join(skips, "\x1f"), envTmp+"="+tmp)
 
 		tail := &tailBuf{}
 		cmd.Stdout = tail
